@@ -17,8 +17,11 @@ from typing import Any
 
 EPOCH = 1_000_000.0
 # name -> (iterations until complete, failing iteration or -1)
-COMMANDS = {"CmdA": (1, -1), "CmdB": (3, -1), "CmdC": (6, -1), "CmdD": (4, -1), "CmdF": (0, 1)}
-OVERLAPS = [["CmdB", "CmdC"], ["CmdC", "CmdD"], ["CmdN", "CmdB"]]
+# (failing iteration 100 + i: the exec function calls set_complete() and then raises in iteration i)
+COMMANDS = {"CmdA": (1, -1), "CmdB": (3, -1), "CmdC": (6, -1), "CmdD": (4, -1), "CmdF": (0, 1),
+            "CmdX": (0, 101), "CmdY": (0, 100)}
+FAILING = ("CmdF", "CmdX", "CmdY")
+OVERLAPS = [["CmdB", "CmdC"], ["CmdC", "CmdD"], ["CmdN", "CmdB"], ["CmdX", "CmdD"]]
 TAGS = ["T0", "T1", "T2"]
 
 
@@ -74,6 +77,9 @@ class Run:
             def exec_fn(cmd, **kvargs):
                 it = cmd.get_iteration_count()
                 self.log.append((self.tick_no, "exec", name, serial(cmd), it, cmd.instance_id))
+                if fail >= 100 and fail - 100 == it:
+                    cmd.set_complete()      # e.g. a final hardware write that fails after the command declared itself done
+                    raise RuntimeError(f"{name} completes and then fails at iteration {it}")
                 if fail == it:
                     raise RuntimeError(f"{name} fails at iteration {it}")
                 if dur > 0 and it + 1 >= dur:
@@ -88,7 +94,7 @@ class Run:
         for t in TAGS:
             b = b.with_tag(Tag(name=t, value=0))
         for name, (dur, fail) in COMMANDS.items():
-            if name == "CmdF" and not failing:
+            if name in FAILING and not failing:
                 continue
             i, x, f = mk(name, dur, fail)
             b = b.with_command(name=name, exec_fn=x, init_fn=i, finalize_fn=f)
@@ -220,7 +226,7 @@ def gen_method(rng: random.Random, max_lines: int = 9, failing: bool = False, en
                waits: bool = True, bad_args: bool = False, thresholds: bool = False) -> str:
     """Methods that keep several UOD commands of different durations in flight, from the main sequence and
     from Watch / Alarm bodies whose conditions are constant (true at once or never)."""
-    cmds = ["CmdA", "CmdB", "CmdB", "CmdC", "CmdC", "CmdD"] + (["CmdF"] if failing else [])
+    cmds = ["CmdA", "CmdB", "CmdB", "CmdC", "CmdC", "CmdD"] + (["CmdF", "CmdX", "CmdY"] if failing else [])
     if bad_args:
         cmds += ["CmdN: 5", "CmdN: 7", "CmdN: lots"]
     lines: list[str] = []
@@ -278,7 +284,7 @@ def gen_pause_hold(rng: random.Random) -> str:
 
 
 def gen_snippet(rng: random.Random, failing: bool = False, bad_args: bool = False) -> str:
-    cmds = ["CmdA", "CmdB", "CmdC", "CmdD"] + (["CmdF"] if failing else []) + \
+    cmds = ["CmdA", "CmdB", "CmdC", "CmdD"] + (["CmdF", "CmdX", "CmdY"] if failing else []) + \
         (["CmdN: 3", "CmdN: lots"] if bad_args else [])
     n = rng.choice([1, 1, 2])
     return "\n".join(rng.choice(cmds) for _ in range(n))
@@ -389,6 +395,7 @@ def oracle_c11(res: dict[str, Any]) -> list[tuple[str, str]]:
     for ev in log:
         if ev[1] == "exec":
             dur, fail = COMMANDS.get(ev[2], (2, -1))
+            fail = fail % 100 if fail >= 0 else -1
             ended = "raised" if fail == ev[4] else ("completed" if dur > 0 and ev[4] + 1 >= dur else None)
             if ended and fin_tick.get(ev[3], 10 ** 9) > ev[0]:
                 out.append((f"{'failed' if ended == 'raised' else 'completed'}-instance-not-finalized",
